@@ -556,10 +556,10 @@ def parse(shape: int, a: str, bb: str, c: str, d: str, junk: str, pos: int) -> b
     """
     pre: 0 <= shape < 7 and 0 <= pos
     pre: len(a) <= 3 and len(bb) <= 3 and len(c) <= 3 and len(d) <= 3 and len(junk) <= 1
-    pre: all(48 <= ord(ch) <= 57 for ch in a + bb + c + d)
-    pre: all(ord(ch) < 256 for ch in junk)
     post: _
     """
+    # every shard adds (after fixing the lengths, which keeps the precondition itself cheap):
+    #   all(48 <= ord(ch) <= 57 for ch in a + bb + c + d)  and  all(ord(ch) < 256 for ch in junk)
     sh = _SHAPES[_split_cases(len(_SHAPES) - 1, shape)]
     cs = []
     for ch in sh:
@@ -614,7 +614,9 @@ def _parse_shards(tier):
         for ln in lens:
             for j in (0, 1):
                 out.append(("shape == %d" % si, "len(a) == %d" % ln[0], "len(bb) == %d" % ln[1],
-                            "len(c) == %d" % ln[2], "len(d) == %d" % ln[3], "len(junk) == %d" % j))
+                            "len(c) == %d" % ln[2], "len(d) == %d" % ln[3], "len(junk) == %d" % j,
+                            "all(48 <= ord(ch) <= 57 for ch in a + bb + c + d)",
+                            "all(ord(ch) < 256 for ch in junk)"))
     return out
 
 
@@ -820,7 +822,8 @@ def multi_buf(n1: int, n2: int, n3: int) -> bool:
 HARNESSES = [
     H(r2os, shards=[("start is None",), ("start is not None", "end is None"),
                     ("start is not None", "end is not None")], timeout={"quick": 60, "thorough": 300}),
-    H(parse, shards=_parse_shards, timeout={"quick": 60, "thorough": 900}),
+    H(parse, shards=_parse_shards, timeout={"quick": 60, "thorough": 900},
+      note="a, bb, c, d are ASCII digit strings and junk is one latin-1 character (constraints added per shard)"),
     H(single, shards=lambda tier: [("vi == %d" % v, "sizei == %d" % s) for v in range(BOUNDS[tier]["vals"] + 1)
                                    for s in range(len(_SIZES[v]))], timeout={"quick": 60, "thorough": 300}),
     H(multi, shards=[("sizei == %d" % s, "bufi == %d" % k) for s in range(len(_MSIZES)) for k in (0, 1)],
